@@ -11,6 +11,7 @@ import (
 	cd "github.com/go-kid/ioc/component_definition"
 	"github.com/go-kid/ioc/configure/loader"
 	"github.com/go-kid/ioc/container/processors"
+	"github.com/go-kid/ioc/definition"
 	"github.com/go-kid/ioc/syslog"
 
 	"verif/internal/core"
@@ -28,8 +29,8 @@ func init() {
 			"the custom-tag processor's view is compared as a set (scan order follows the embedding)",
 		},
 		Parts: []Part{
-			{Name: "shapes", Run: c11Shapes, QuickS: 60, ThoroughS: 900},
-			{Name: "static-shapes", Run: c11Static, Workers: 1, QuickS: 30, ThoroughS: 60},
+			{Name: "shapes", Run: c11Shapes, QuickS: 180, ThoroughS: 900},
+			{Name: "static-shapes", Run: c11Static, Workers: 1, QuickS: 90, ThoroughS: 120},
 		},
 	})
 }
@@ -507,12 +508,85 @@ type c11HolderPropsFlat struct {
 	U string
 }
 
+// the embedding component itself satisfies the interface its mixin's points ask for (the container
+// never injects a component into itself: the direct and the embedded shape must agree on who is left)
+type C11SelfMix struct {
+	W  scen.Iface   `wire:""`
+	WO scen.Iface   `wire:",required=false"`
+	WS []scen.Iface `wire:""`
+}
+type C11SelfMid struct{ C11SelfMix }
+type c11SelfFlat struct {
+	W  scen.Iface   `wire:""`
+	WO scen.Iface   `wire:",required=false"`
+	WS []scen.Iface `wire:""`
+}
+type c11SelfEmb struct{ C11SelfMix }
+type c11SelfEmb2 struct{ C11SelfMid }
+type c11SelfFlatP struct {
+	definition.WirePrimaryComponent
+	W  scen.Iface   `wire:""`
+	WO scen.Iface   `wire:",required=false"`
+	WS []scen.Iface `wire:""`
+}
+type c11SelfEmbP struct {
+	definition.WirePrimaryComponent
+	C11SelfMix
+}
+type c11SelfEmb2P struct {
+	definition.WirePrimaryComponent
+	C11SelfMid
+}
+
+func (*c11SelfFlat) ID() string  { return "holder" }
+func (*c11SelfEmb) ID() string   { return "holder" }
+func (*c11SelfEmb2) ID() string  { return "holder" }
+func (*c11SelfFlatP) ID() string { return "holder" }
+func (*c11SelfEmbP) ID() string  { return "holder" }
+func (*c11SelfEmb2P) ID() string { return "holder" }
+
+type c11Peer struct{}
+
+func (*c11Peer) ID() string { return "peer" }
+
+func c11SelfView(h any) string {
+	var w, wo scen.Iface
+	var ws []scen.Iface
+	switch x := h.(type) {
+	case *c11SelfFlat:
+		w, wo, ws = x.W, x.WO, x.WS
+	case *c11SelfEmb:
+		w, wo, ws = x.W, x.WO, x.WS
+	case *c11SelfEmb2:
+		w, wo, ws = x.W, x.WO, x.WS
+	case *c11SelfFlatP:
+		w, wo, ws = x.W, x.WO, x.WS
+	case *c11SelfEmbP:
+		w, wo, ws = x.W, x.WO, x.WS
+	case *c11SelfEmb2P:
+		w, wo, ws = x.W, x.WO, x.WS
+	}
+	id := func(v scen.Iface) string {
+		if v == nil {
+			return "<nil>"
+		}
+		return v.ID()
+	}
+	var ids []string
+	for _, v := range ws {
+		ids = append(ids, id(v))
+	}
+	sort.Strings(ids)
+	return fmt.Sprintf("W=%s WO=%s WS=%v", id(w), id(wo), ids)
+}
+
 func c11Static(c *core.Ctx) {
 	type sc struct {
 		Shape string `json:"shape"`
 	}
 	gen := func(yield func(sc) bool) {
-		for _, s := range []string{"unexported-embed", "exported>unexported", "unexported>exported>unexported", "decoys", "diamond", "two-depths", "tagged-embedded", "mixin-with-properties"} {
+		for _, s := range []string{"unexported-embed", "exported>unexported", "unexported>exported>unexported", "decoys", "diamond", "two-depths", "tagged-embedded", "mixin-with-properties",
+			"holder-is-candidate/1", "holder-is-candidate/2", "holder-is-candidate/primary/1", "holder-is-candidate/primary/2", "holder-is-candidate/unnamed-peer"} {
 			if !yield(sc{s}) {
 				return
 			}
@@ -546,6 +620,46 @@ func c11Static(c *core.Ctx) {
 		want := view(&fin, fprov)
 		if !fo.OK() {
 			c.Report(key, "flat-failed", "the flat reference shape did not start: "+scen.FirstLine(fo.Err)+fo.Panic, s)
+			return
+		}
+		if strings.HasPrefix(s.Shape, "holder-is-candidate") {
+			primary := strings.Contains(s.Shape, "primary")
+			start := func(h any) (string, *scen.StartObs) {
+				comps := []any{h}
+				switch {
+				case strings.HasSuffix(s.Shape, "/1"):
+					comps = append(comps, &c11Prov{"prov"})
+				case strings.HasSuffix(s.Shape, "/2"):
+					comps = append(comps, &c11Prov{"prov"}, &c11Prov{"prov2"})
+				default:
+					comps = append(comps, &c11Peer{})
+				}
+				o := scen.Start(scen.StartSpec{Ch: envx.Fixed("", nil), Comps: comps})
+				if !o.OK() {
+					return "failed: " + scen.FirstLine(o.Err) + o.Panic, o
+				}
+				return c11SelfView(h), o
+			}
+			var flat any = &c11SelfFlat{}
+			embs := []any{&c11SelfEmb{}, &c11SelfEmb2{}}
+			if primary {
+				flat, embs = &c11SelfFlatP{}, []any{&c11SelfEmbP{}, &c11SelfEmb2P{}}
+			}
+			want, wo := start(flat)
+			for depth, e := range embs {
+				got, o := start(e)
+				switch {
+				case wo.OK() != o.OK():
+					c.Outcome(s.Shape + "/outcome-differs")
+					c.Report(key, "embedding-changes-outcome", fmt.Sprintf("shape %s, mixin depth %d: [%s], with the points declared directly [%s]", s.Shape, depth+1, got, want), s)
+				case o.OK() && got != want:
+					c.Outcome(s.Shape + "/differs")
+					c.Report(key, "embedding-changes-value", fmt.Sprintf("shape %s, mixin depth %d: points end as [%s], declared directly as [%s]", s.Shape, depth+1, got, want), s)
+				default:
+					c.Outcome(s.Shape + "/as-flat:" + strings.SplitN(want, ":", 2)[0])
+				}
+			}
+			c.Sample(map[string]any{"shape": s.Shape, "flat": want})
 			return
 		}
 		if s.Shape == "mixin-with-properties" {
